@@ -135,6 +135,7 @@ type sgSig struct {
 	mutated    int    // index of the slice parameter written through, -1 if none
 	retTy      string
 	resultName string
+	results    []lfield // ring helpers: the named results that are used as variables
 }
 
 type sgCtx struct {
@@ -160,6 +161,9 @@ type sg struct {
 	multiParams   [2]string         // the names of the two parameters that together are isMulti
 	splitTail     bool              // the classification part of splitRing
 	sortedKeys    map[string]bool   // key slices on which sort.Ints has been called
+	rh            bool              // the constructs of the ring helpers (ringhelpers.go, hooks rh*) are enabled
+	rhConfigOK    bool              // snap.Config has been checked against the model's record
+	rhExtSigs     map[string]string // the signatures of package geomhelp
 	cur           *sgSig
 	n             int
 	loopN         int
@@ -173,6 +177,11 @@ func (g *sg) fresh(p string) string {
 }
 
 func (g *sg) goType(x ast.Expr) (string, error) {
+	if g.rh {
+		if t, ok := g.rhType(x); ok {
+			return t, nil
+		}
+	}
 	switch types.ExprString(x) {
 	case "int":
 		return stInt, nil
@@ -211,6 +220,8 @@ func sgElem(ty string) (string, bool) {
 		return stInt, true
 	case stRings:
 		return stPts, true
+	case stPolys:
+		return stRings, true
 	}
 	return "", false
 }
@@ -275,6 +286,10 @@ func (g *sg) expr(env *sgEnv, x ast.Expr, binds *[]string) (sgVal, error) {
 				return sgVal{code: "(-" + v.code + ")", ty: stInt, lit: true}, nil
 			}
 			return sgVal{code: "(- " + v.code + ")", ty: stInt}, nil
+		case x.Op == token.AND && g.rh && v.ty == stPt: // &s[i], only read through: the element
+			if _, ok := x.X.(*ast.IndexExpr); ok {
+				return sgVal{code: "(Some " + v.code + ")", ty: stPtPtr}, nil
+			}
 		}
 		return sgVal{}, fmt.Errorf("unsupported unary %s on %s", x.Op, v.ty)
 	case *ast.StarExpr:
@@ -302,6 +317,11 @@ func (g *sg) expr(env *sgEnv, x ast.Expr, binds *[]string) (sgVal, error) {
 		}
 		if x.Op == token.LAND || x.Op == token.LOR {
 			return g.shortCircuit(env, x, binds)
+		}
+		if g.rh {
+			if v, handled, err := g.rhBinary(env, x, binds); handled {
+				return v, err
+			}
 		}
 		a, err := g.expr(env, x.X, binds)
 		if err != nil {
@@ -492,6 +512,9 @@ func (g *sg) expr(env *sgEnv, x ast.Expr, binds *[]string) (sgVal, error) {
 	case *ast.CallExpr:
 		return g.call(env, x, binds)
 	}
+	if g.rh {
+		return g.rhExpr(env, x, binds)
+	}
 	return sgVal{}, fmt.Errorf("unsupported expression %T", x)
 }
 
@@ -589,6 +612,11 @@ func sgStaticallyNonNeg(x ast.Expr) bool {
 }
 
 func (g *sg) call(env *sgEnv, x *ast.CallExpr, binds *[]string) (sgVal, error) {
+	if g.rh {
+		if v, handled, err := g.rhCall(env, x, binds); handled {
+			return v, err
+		}
+	}
 	if g.dedup {
 		if v, handled, err := g.dedupCall(env, x, binds); handled {
 			return v, err
@@ -747,6 +775,9 @@ func sgAssigned(stmts []ast.Stmt, acc map[string]bool) {
 	target := func(l ast.Expr) {
 		if ix, ok := l.(*ast.IndexExpr); ok {
 			l = ix.X
+			if ix2, ok := l.(*ast.IndexExpr); ok { // a[i][j]
+				l = ix2.X
+			}
 		}
 		if id, ok := l.(*ast.Ident); ok {
 			acc[id.Name] = true
@@ -874,6 +905,11 @@ func (g *sg) stmts(env *sgEnv, list []ast.Stmt, k lcont, ctx *sgCtx) (string, er
 	}
 	switch s := s.(type) {
 	case *ast.ReturnStmt:
+		if g.rh {
+			if out, handled, err := g.rhReturn(env, s, ctx); handled {
+				return out, err
+			}
+		}
 		switch {
 		case len(s.Results) == 0 && g.cur.result == "":
 			return ctx.ret("v_" + g.cur.params[g.cur.mutated].name), nil
@@ -971,6 +1007,9 @@ func (g *sg) stmts(env *sgEnv, list []ast.Stmt, k lcont, ctx *sgCtx) (string, er
 		return g.callStmt(env, s, rest, k, ctx)
 	case *ast.IfStmt:
 		if s.Init != nil {
+			if g.rh {
+				return g.rhIfInit(env, s, rest, k, ctx)
+			}
 			return "", fmt.Errorf("unsupported if with init")
 		}
 		eb, err := lgElse(s)
@@ -1005,6 +1044,11 @@ func (g *sg) stmts(env *sgEnv, list []ast.Stmt, k lcont, ctx *sgCtx) (string, er
 		c2.inSwitch = true
 		return g.branch(env, conds, bodies, def, after(env), &c2)
 	case *ast.ForStmt:
+		if g.rh {
+			if out, handled, err := g.rhOMapLoop(env, s, after(env), ctx); handled {
+				return out, err
+			}
+		}
 		if s.Init != nil { // for init; cond; post {}  =  init; for ; cond; post {}  (the loop variable stays declared)
 			as, ok := s.Init.(*ast.AssignStmt)
 			if !ok || as.Tok != token.DEFINE {
@@ -1024,6 +1068,18 @@ func (g *sg) callStmt(env *sgEnv, s *ast.ExprStmt, rest []ast.Stmt, k lcont, ctx
 	c, ok := s.X.(*ast.CallExpr)
 	if !ok {
 		return "", fmt.Errorf("unsupported expression statement")
+	}
+	if g.rh {
+		if line, handled, err := g.rhStmt(env, c); handled {
+			if err != nil {
+				return "", err
+			}
+			body, err := g.stmts(env, rest, k, ctx)
+			if err != nil {
+				return "", err
+			}
+			return line + "\n  " + body, nil
+		}
 	}
 	if g.dedup {
 		if line, handled, err := g.dedupStmt(env, c); handled {
@@ -1077,6 +1133,11 @@ func (g *sg) callStmt(env *sgEnv, s *ast.ExprStmt, rest []ast.Stmt, k lcont, ctx
 }
 
 func (g *sg) assign(env *sgEnv, s *ast.AssignStmt, rest []ast.Stmt, k lcont, ctx *sgCtx) (string, error) {
+	if g.rh {
+		if out, handled, err := g.rhAssign(env, s, rest, k, ctx); handled {
+			return out, err
+		}
+	}
 	env2 := env.clone()
 	var lines []string
 	// x op= e
@@ -1120,7 +1181,7 @@ func (g *sg) assign(env *sgEnv, s *ast.AssignStmt, rest []ast.Stmt, k lcont, ctx
 				}
 				sty := env.vars[t.Name]
 				el, isSlice := sgElem(sty)
-				if !isSlice || (sty != stInts && !g.dedup) || (sty == stRings && !g.splitTail) {
+				if !isSlice || (sty != stInts && !g.dedup) || (sty == stRings && !g.splitTail && !g.rh) {
 					return "", fmt.Errorf("append to %s", sty)
 				}
 				v, err := g.expr(env, c.Args[1], &lines)
@@ -1189,6 +1250,7 @@ func (g *sg) assign(env *sgEnv, s *ast.AssignStmt, rest []ast.Stmt, k lcont, ctx
 	type target struct {
 		name string
 		idx  string // "" for a plain variable
+		el   string // the element type of an indexed target
 	}
 	var ts []target
 	seen := map[string]bool{}
@@ -1206,7 +1268,7 @@ func (g *sg) assign(env *sgEnv, s *ast.AssignStmt, rest []ast.Stmt, k lcont, ctx
 				return "", fmt.Errorf("unsupported assignment target %s", types.ExprString(l))
 			}
 			aty, ok := env.vars[id.Name]
-			if !ok || aty != stInts {
+			if !ok || (aty != stInts && !(g.rh && (aty == stPts || aty == stPolys))) {
 				return "", fmt.Errorf("indexed assignment to %s", id.Name)
 			}
 			isParam := g.cur.mutated >= 0 && g.cur.params[g.cur.mutated].name == id.Name
@@ -1220,7 +1282,8 @@ func (g *sg) assign(env *sgEnv, s *ast.AssignStmt, rest []ast.Stmt, k lcont, ctx
 			if i.ty != stInt {
 				return "", fmt.Errorf("index of type %s", i.ty)
 			}
-			ts = append(ts, target{name: id.Name, idx: i.code})
+			el, _ := sgElem(aty)
+			ts = append(ts, target{name: id.Name, idx: i.code, el: el})
 		default:
 			return "", fmt.Errorf("unsupported assignment target %s", types.ExprString(l))
 		}
@@ -1242,8 +1305,8 @@ func (g *sg) assign(env *sgEnv, s *ast.AssignStmt, rest []ast.Stmt, k lcont, ctx
 		t := ts[i]
 		switch {
 		case t.idx != "":
-			if v.ty != stInt {
-				return "", fmt.Errorf("assignment of %s to an element of []int", v.ty)
+			if v.ty != t.el {
+				return "", fmt.Errorf("assignment of %s to an element of a slice of %s", v.ty, t.el)
 			}
 		case t.name == "_":
 		case s.Tok == token.DEFINE:
@@ -1442,6 +1505,9 @@ func (g *sg) loop(env *sgEnv, s *ast.ForStmt, after lcont, ctx *sgCtx) (string, 
 }
 
 func (g *sg) signature(fd *ast.FuncDecl) (*sgSig, error) {
+	if g.rh {
+		return g.rhSignature(fd)
+	}
 	sig := &sgSig{name: fd.Name.Name, mutated: -1}
 	if fd.Recv != nil || (fd.Type.TypeParams != nil && !(g.dedup && fd.Name.Name == "RemoveSequences")) {
 		return nil, fmt.Errorf("methods and generic functions are not supported")
@@ -1607,6 +1673,13 @@ func (g *sg) function(name string) error {
 		}
 		env.declare(sig.resultName, sig.result)
 		prefix = "let v_" + sig.resultName + " := (@nil pt) in\n  "
+	}
+	if g.rh {
+		p, err := g.rhDeclareResults(env, sig)
+		if err != nil {
+			return err
+		}
+		prefix += p
 	}
 	body, err := g.stmts(env, fd.Body.List, fall, ctx)
 	if err != nil {
